@@ -15,6 +15,14 @@ case kinds
   slots : dir() of a real frame / code / traceback object
   nsput : ExceptionInfo from a live traceback some of whose namespace values do not pickle (frame kinds
         18-20, known finding F-C12-2); observed: what the pool's pickler raises on the record
+  seq : a HISTORY: several failures recorded one after the other in this one process.  The failing code
+        of every step is compiled afresh (compile/exec under a file name fixed for the case, lambdas and
+        generator expressions on one source line, a "reloaded" module, generated methods), so later steps
+        run through code objects that share (co_filename, co_name, co_firstlineno) with earlier ones but
+        differ in body.  Per step the record is compared with the REAL traceback of that very failure:
+        per node co_filename, co_name, tb_lineno, co_firstlineno, f_lineno, tb_lasti, the co_positions()
+        entry of the failing instruction, and what traceback.extract_tb / format_exception make of the
+        record (taken from the live traceback BEFORE the record is built)
 
 The call chains (pat) run over FUNCS: 0-3 ordinary module-level functions, 4.. frames of code run
 by exec/eval in fresh or odd globals, lambdas, generator expressions, generators, class bodies,
@@ -23,11 +31,13 @@ frames under C-level callers (sorted(key=), map), frames hiding themselves, chai
 Values are JSON-encoded: {"i":n} {"s":str} {"n":0} {"b":bool} {"t":[..]} {"l":[..]}
 {"u":k} (object whose pickling raises) and, for observations only, {"o":repr}.
 """
+import itertools
 import json
 import pickle
 import re
 import sys
 import traceback
+import types
 
 RECLIMIT_AT_IMPORT = sys.getrecursionlimit()
 
@@ -374,7 +384,7 @@ def fmt_check(e, frames):
     return None
 
 
-def view(e, T):
+def view(e, T, ex=False):
     exc = e.exception
     wrapped = type(exc) is ExceptionWithTraceback
     inner = exc.exc if wrapped else exc
@@ -386,9 +396,12 @@ def view(e, T):
         cause = None if c is None else (T.cause(c.tb) if isinstance(c, RemoteTraceback) else 2000)
     frames = frames_of(e.tb)
     d = exc_desc(inner)
-    return dict(type=cname(e.type), wrapped=wrapped, cls=d['cls'], args=d['args'], attrs=d['attrs'],
-                cause=cause, text=text, tb=rle_of(frames, T), internal=bool(e.internal),
-                fmt=fmt_check(e, frames), str=str(inner) if isinstance(inner, MaybeEncodingError) else None)
+    out = dict(type=cname(e.type), wrapped=wrapped, cls=d['cls'], args=d['args'], attrs=d['attrs'],
+               cause=cause, text=text, tb=rle_of(frames, T), internal=bool(e.internal),
+               fmt=fmt_check(e, frames), str=str(inner) if isinstance(inner, MaybeEncodingError) else None)
+    if ex and len(frames) <= 40:
+        out['ex'] = extract_of(e.tb)
+    return out
 
 
 def names_raiser(text, frames):
@@ -624,6 +637,215 @@ def run_slots(c):
     return dict(frame=sorted(frs), code=sorted(cos), tb=sorted(tbs))
 
 
+# --------------------------------------------------------------- histories
+# One failure of a history.  Its code is compiled afresh from a source text that depends on the step's
+# parameters, under a file name that depends only on the case (tag): the code objects of different steps
+# have equal (co_filename, co_name, co_firstlineno) and different bodies (number of lines, raise line,
+# bytecode length, name table).  The shapes:
+#   def       def task(exc, depth) compiled with compile()/exec, `pad` statements before the raise
+#   reload    a module source executed again into the SAME module namespace (importlib.reload does that)
+#             after an edit: handler() keeps its first line, its body and everything below it move
+#   lambda    three lambdas on ONE source line (co_name <lambda>, first line 1), step picks one
+#   genexpr   three generator expressions on one line inside one lambda
+#   method    a generated method in the style of dataclasses / namedtuple: `def __create_fn__(..):
+#             def __init__(self, f0=.., ..)` with pad+1 fields, field `which` calls a failing factory
+#   dataclass the real thing: dataclasses.make_dataclass, a default_factory raises ("<string>", __init__)
+_PADF = ['abs', 'int', 'str', 'float', 'bool', 'repr']
+SEQ_FILES = ['<generated-%d>', '/srv/app/tasks_%d.py', '<string-%d>']
+_SEQ_MODS = {}          # file name -> the "module" that shape reload executes its source into
+
+
+def _pad(n, ind, base=0):
+    return ''.join('%sv%d = %s(%d)\n' % (ind, base + i, _PADF[(base + i) % 6], i) for i in range(n))
+
+
+class _Rec:
+    pass
+
+
+def seq_build(tag, fidx, st):
+    """(file name, source text, callable(exc) failing through the freshly compiled code)"""
+    shape, pad, which, depth = st['shape'], st.get('pad', 0), st.get('which', 0), st.get('depth', 0)
+    fname = SEQ_FILES[fidx % len(SEQ_FILES)] % tag + ('.orig' if st.get('alt') else '')
+    ns = {'__name__': 'generated'}
+    if shape == 'def':
+        src = ('def task(exc, depth=0):\n' + _pad(pad, '    ') +
+               '    if depth:\n        return task(exc, depth - 1)\n'
+               '    if exc is not None:\n        raise exc\n' + _pad(st.get('tail', 0), '    ', 50))
+        exec(compile(src, fname, 'exec'), ns)
+
+        def call(exc):
+            return ns['task'](exc, depth)
+    elif shape == 'reload':
+        src = ('import sys\ndef handler(exc, depth=0):\n' + _pad(pad, '    ') +
+               '    if depth:\n        return handler(exc, depth - 1)\n    return inner(exc)\n'
+               'def inner(exc):\n    raise exc\n')
+        mod = _SEQ_MODS.setdefault(fname, types.ModuleType('seqmod'))
+        mod.__file__ = fname
+        exec(compile(src, fname, 'exec'), mod.__dict__)
+
+        def call(exc):
+            return mod.handler(exc, depth)
+    elif shape == 'lambda':
+        nl = '\n    ' * pad
+        # all three start on line 1; the body of the last one continues over `pad` more lines
+        src = ('fs = [lambda exc: thrower(exc), lambda exc: (abs(0), int(1), thrower(exc))[2], '
+               'lambda exc: [str(2), float(3), bool(4),%s repr(5), thrower(exc)][-1]]\n'
+               'def thrower(exc):\n    raise exc\n' % nl)
+        exec(compile(src, fname, 'exec'), ns)
+
+        def call(exc):
+            return ns['fs'][which % 3](exc)
+    elif shape == 'genexpr':
+        nl = '\n    ' * pad
+        src = ('gs = lambda exc: [(thrower(exc) for _ in (0,)), (str(abs(w)) + thrower(exc) for w in (0,)), '
+               '(repr(int(w)) + str(w) + repr(w) +%s thrower(exc) for w in (1,))]\n'
+               'def thrower(exc):\n    raise exc\n' % nl)
+        exec(compile(src, fname, 'exec'), ns)
+
+        def call(exc):
+            return next(ns['gs'](exc)[which % 3])
+    elif shape == 'method':
+        n = pad + 1
+        bad = which % n
+        src = ('def __create_fn__(thrower, MISSING):\n def __init__(self, %s):\n%s return __init__\n' % (
+            ', '.join('f%d=MISSING' % i for i in range(n)),
+            ''.join('  self.f%d = %s() if f%d is MISSING else f%d\n' % (i, 'thrower' if i == bad else 'int', i, i)
+                    for i in range(n))))
+        exec(compile(src, fname, 'exec'), ns)
+
+        def call(exc):
+            def thrower():
+                raise exc
+            return ns['__create_fn__'](thrower, object())(_Rec())
+    elif shape == 'dataclass':
+        import dataclasses
+        n = pad + 1
+        bad = which % n
+        fname = '<string>'
+        src = '(dataclasses.make_dataclass: %d fields, the default_factory of field %d raises)' % (n, bad)
+
+        def call(exc):
+            def thrower():
+                raise exc
+            cls = dataclasses.make_dataclass('Rec%d' % n, [
+                ('f%d' % i, int, dataclasses.field(default_factory=thrower if i == bad else int))
+                for i in range(n)])
+            return cls()
+    else:
+        raise ValueError('unknown shape %r' % (shape,))
+    return fname, src, call
+
+
+def position_at(code, lasti):
+    """the co_positions() entry of the instruction at lasti, read the way the traceback module reads it;
+    [] = the object keeps no positions, [-9]*4 = it has none for that instruction; None -> -2"""
+    cp = getattr(code, 'co_positions', None)
+    if cp is None or not isinstance(lasti, int):
+        return []
+    try:
+        p = next(itertools.islice(cp(), lasti // 2, None))
+    except StopIteration:
+        return [-9, -9, -9, -9]
+    return [(-2 if x is None else x) for x in p]
+
+
+def _num(x):
+    return x if isinstance(x, int) and not isinstance(x, bool) else -2
+
+
+def code_nodes(tb, T, alive=1):
+    """per traceback node what it says about the code object it ran: [file, name, tb_lineno,
+    co_firstlineno, f_lineno, tb_lasti, position of the failing instruction].  f_lineno of the first
+    `alive` nodes is not reported (-3): those frames are still running, their line moves on."""
+    out = []
+    while tb is not None:
+        fr = tb.tb_frame
+        code = fr.f_code
+        lasti = getattr(tb, 'tb_lasti', None)
+        out.append([T.s(code.co_filename), T.s(code.co_name), _num(tb.tb_lineno),
+                    _num(getattr(code, 'co_firstlineno', None)),
+                    -3 if len(out) < alive else _num(getattr(fr, 'f_lineno', None)),
+                    _num(lasti), position_at(code, lasti)])
+        tb = tb.tb_next
+        if len(out) > 100000:
+            raise RuntimeError('cyclic tb chain')
+    return out
+
+
+def extract_of(tb):
+    """what the traceback module makes of a tb object: per entry [file, name, line, end line, column,
+    end column] (None -> -2), or a string when it raises"""
+    try:
+        ex = traceback.extract_tb(tb)
+        return [[fs.filename, fs.name] + [_num(x) for x in (
+            fs.lineno, getattr(fs, 'end_lineno', None), getattr(fs, 'colno', None),
+            getattr(fs, 'end_colno', None))] for fs in ex]
+    except BaseException as exc:          # noqa
+        return 'raised %s: %s' % (type(exc).__name__, exc)
+
+
+def seq_step(tag, fidx, st):
+    T = Tables()
+    fname, src, call = seq_build(tag, fidx, st)
+    exc = make_exc(st['exc'])
+    e = None
+    try:
+        call(exc)
+    except BaseException:
+        ei = sys.exc_info()
+        # everything about the REAL failure is taken here, before the record is built
+        live = frames_of(ei[2])
+        nodes_live = code_nodes(ei[2], T)
+        real_ex = extract_of(ei[2])
+        live_exc = exc_desc(ei[1])
+        only = ''.join(traceback.format_exception_only(ei[0], ei[1]))
+        real_text = ''.join(traceback.format_exception(*ei))
+        live_text = T.t(real_text)
+        build_error = None
+        try:
+            e = ExceptionInfo()
+        except BaseException as exc2:     # noqa
+            build_error = '%s: %s' % (type(exc2).__name__, exc2)
+        del ei
+    else:
+        raise AssertionError('step did not fail')
+    del call, exc
+    out = dict(file=fname, src=src, live=rle_of(live, T), live_len=len(live), live_exc=live_exc,
+               live_text=live_text, nodes_live=nodes_live, real_ex=real_ex, views=[], nodes=[], ex=[],
+               fmt_text=None, error=None)
+    if build_error:
+        out['build_error'] = build_error
+        out['strs'] = T.strs
+        return out
+    out['text_names_raiser'] = names_raiser(e.traceback, live) and e.traceback.endswith(only)
+    try:
+        for r in range(st.get('rounds', 1) + 1):
+            if r:
+                e = pickle.loads(pickle.dumps(e, st.get('proto', pickle.DEFAULT_PROTOCOL)))
+            out['views'].append(view(e, T))
+            out['nodes'].append(code_nodes(e.tb, T))
+            out['ex'].append(extract_of(e.tb))
+        # the received record, formatted by the standard module, must name the real raising frame
+        try:
+            inner = e.exception.exc if type(e.exception) is ExceptionWithTraceback else e.exception
+            text = ''.join(traceback.format_exception(e.type, inner, e.tb))
+            want = 'File "%s", line %s, in %s' % (live[-1][0], live[-1][2], live[-1][1])
+            if want not in text:
+                out['fmt_text'] = 'format_exception of the received record does not name %s' % want
+        except BaseException as exc2:     # noqa
+            out['fmt_text'] = 'format_exception raised %s: %s' % (type(exc2).__name__, exc2)
+    except BaseException as exc2:         # noqa
+        out['error'] = 'round %d: %s: %s' % (len(out['views']), type(exc2).__name__, exc2)
+    out['strs'] = T.strs
+    return out
+
+
+def run_seq(c):
+    steps = [seq_step(c['tag'], c.get('file', 0), st) for st in c['steps']]
+    return dict(reclimit=RECLIMIT_AT_IMPORT, dmf=einfo_mod.DEFAULT_MAX_FRAMES, steps=steps)
+
+
 # ------------------------------------------------------------ worker loop
 class ScriptEnd(BaseException):
     pass
@@ -653,6 +875,11 @@ class FakeQ:
 def task_fn(spec):
     if 'ret' in spec:
         return dec(spec['ret'])
+    if 'seq' in spec:
+        # a task whose code is compiled afresh (see seq_build): tasks of one script share file name,
+        # function name and first line, and differ in body
+        q = spec['seq']
+        return seq_build(q['tag'], q.get('file', 0), q)[2](make_exc(spec['exc']))
     raise_through(spec['pat'], make_exc(spec['exc']))
 
 
@@ -688,6 +915,10 @@ class OutQ(FakeQ):
                     o['live_exc'] = exc_desc(inner)
                     # independent of the record: which namespace values of the live frames do not pickle
                     o['live_unp'] = live_unp(inner.__traceback__, self.T)
+                    if sum(r[3] for r in o['live']) <= 40:
+                        # what the standard module makes of the REAL traceback (compared with what it
+                        # makes of the record the parent reads)
+                        o['real_ex'] = extract_of(inner.__traceback__)
                     o['put_n'] = n
                 elif 'seen' in o:
                     # the record made by the `except Exception` handler around the first put
@@ -732,7 +963,7 @@ class OutQ(FakeQ):
             elif kind == pool_mod.READY:
                 ok, val = payload[2]
                 if isinstance(val, ExceptionInfo):
-                    out.append(['info', payload[0], payload[1], bool(ok), view(val, self.T)])
+                    out.append(['info', payload[0], payload[1], bool(ok), view(val, self.T, ex=True)])
                 else:
                     out.append(['val', payload[0], payload[1], bool(ok), enc(val)])
             else:
@@ -772,7 +1003,7 @@ def run_wl(c):
 
 def run_case(c):
     return {'rt': run_rt, 'tb': run_tb, 'mee': run_mee, 'wl': run_wl, 'ns': run_ns,
-            'slots': run_slots, 'nsput': run_nsput}[c['kind']](c)
+            'slots': run_slots, 'nsput': run_nsput, 'seq': run_seq}[c['kind']](c)
 
 
 if __name__ == '__main__':
